@@ -103,7 +103,7 @@ class SmartSyncState(SyncState):
         self._callbacks.append(callback)
 
     def _smart_sync_ent(self, ent):
-        if not ent:
+        if not ent or ent[REMOTE].otype == DIRECTORY:
             return
         if ent[LOCAL].path and not self.providers[LOCAL].exists_path(ent[LOCAL].path):
             ent[LOCAL].clear()
